@@ -34,6 +34,11 @@ func c04Gen(rng *verifsim.RNG, idx int, tier string) *Plan {
 			is.Prefixes = []PrefixSpec{{Prefix: sp(fmt.Sprintf("2001:db8:%x::/64", k+1))}}
 		}
 		is.UnicastOnly = rng.Bool(0.1)
+		// header fields that must come out the same whatever forwarding says
+		is.Preference = triPref(rng)
+		if rng.Bool(0.3) {
+			is.Managed, is.OtherConfig = triBool(rng), triBool(rng)
+		}
 		is.Verbose = rng.Bool(0.2)
 		n.Config.Interfaces = append(n.Config.Interfaces, is)
 		n.Ifaces = append(n.Ifaces, iw)
